@@ -8,6 +8,7 @@ use crate::rules::*;
 use crate::tsutil::{self, parse};
 use ast_grep_config::{from_yaml_string, DeserializeEnv, GlobalRules};
 use ast_grep_core::matcher::MatcherExt;
+use ast_grep_core::Pattern;
 use ast_grep_language::SupportLang;
 use proptest::prelude::*;
 use proptest::sample::Index;
@@ -122,7 +123,7 @@ pub struct ScenChoice {
 pub fn scenario_strategy(opts: &SrcOpts) -> BoxedStrategy<ScenChoice> {
   (
     0u8..4,
-    prop::collection::vec(prop::collection::vec((0u8..3, 0u8..9), 1..5), 1..4),
+    prop::collection::vec(prop::collection::vec((0u8..5, 0u8..10), 1..5), 1..4),
     strategy(opts),
   )
     .prop_map(|(lang, stmts, inner)| ScenChoice { lang, stmts, inner: Some(inner) })
@@ -132,11 +133,12 @@ pub fn scenario_strategy(opts: &SrcOpts) -> BoxedStrategy<ScenChoice> {
 pub fn scenario_source(ch: &ScenChoice) -> (SupportLang, String) {
   let lang = [SupportLang::JavaScript, SupportLang::TypeScript, SupportLang::Python, SupportLang::Rust][ch.lang as usize % 4];
   // `a + 1` / `a - 1` / `a * 1` have the same named children and differ in an anonymous token only
-  let atoms = ["a", "b", "1", "2", "g(a)", "a + 1", "a - 1", "a * 1", "a"];
-  let funcs = ["g", "h", "g"];
+  let atoms = ["a", "b", "1", "2", "g(a)", "a + 1", "a - 1", "a * 1", "a", ""];
+  // `g(a)` as a callee gives curried calls `g(a)(b)`: a call that is the `function` field of another
+  let funcs = ["g", "h", "g", "g(a)", "h(b)"];
   let mut body = String::new();
   for (i, st) in ch.stmts.iter().enumerate() {
-    let args: Vec<String> = st.iter().map(|(f, a)| format!("{}({})", funcs[*f as usize % 3], atoms[*a as usize % atoms.len()])).collect();
+    let args: Vec<String> = st.iter().map(|(f, a)| format!("{}({})", funcs[*f as usize % funcs.len()], atoms[*a as usize % atoms.len()])).collect();
     let indent = if lang == SupportLang::Rust { "    " } else { "" };
     let semi = if lang == SupportLang::Python { "" } else { ";" };
     let callee = if i % 2 == 0 { "f" } else { "k" };
@@ -189,14 +191,16 @@ pub struct FamChoice {
   filt: u8,
   end: bool,
   vars: (u8, u8, u8),
+  /// 1 / 2: the first relation (has / inside only) is restricted to the `function` / `arguments` field
+  field: u8,
 }
 
 pub fn family_strategy() -> BoxedStrategy<FamChoice> {
   (
-    (0u8..4, prop::collection::vec(prop::collection::vec((0u8..3, 0u8..9), 1..5), 1..4), 0u8..10),
-    (0u8..4, 0u8..4, any::<u8>(), any::<u8>(), any::<u8>(), any::<u8>(), any::<bool>(), (0u8..3, 0u8..3, 0u8..3)),
+    (0u8..4, prop::collection::vec(prop::collection::vec((0u8..5, 0u8..10), 1..5), 1..4), 0u8..10),
+    (0u8..4, 0u8..4, any::<u8>(), any::<u8>(), any::<u8>(), any::<u8>(), any::<bool>(), (0u8..3, 0u8..3, 0u8..3), 0u8..5),
   )
-    .prop_map(|((lang, stmts, family), (rel, rel2, out, bind, bind2, filt, end, vars))| FamChoice {
+    .prop_map(|((lang, stmts, family), (rel, rel2, out, bind, bind2, filt, end, vars, field))| FamChoice {
       lang,
       stmts,
       family,
@@ -208,12 +212,13 @@ pub fn family_strategy() -> BoxedStrategy<FamChoice> {
       filt,
       end,
       vars,
+      field,
     })
     .boxed()
 }
 
-const OUTS: &[&str] = &["f($$$XS)", "$Y($$$XS)", "k($$$XS)", "f($X, $$$)", "f($$$, $X)", "$X", "f($X, $X)", "$Y($X, $$$)"];
-const BINDS: &[&str] = &["g($X)", "h($X)", "$Y($X)", "$Y(a)", "$Y(1)", "$Y(b)", "$Y(g($X))", "g(g($X))", "$Y(a + 1)", "$X"];
+const OUTS: &[&str] = &["f($$$XS)", "$Y($$$XS)", "k($$$XS)", "f($X, $$$)", "f($$$, $X)", "$X", "f($X, $X)", "$Y($X, $$$)", "$X", "a", "$X"];
+const BINDS: &[&str] = &["g($X)", "h($X)", "$Y($X)", "$Y(a)", "$Y(1)", "$Y(b)", "$Y(g($X))", "g(g($X))", "$Y(a + 1)", "$X", "g($$$XS)", "$Y($$$XS)", "h($$$XS)", "$Y"];
 const FILTS: &[&str] = &["^g", "^h", "\\(a\\)$", "\\(b\\)$", "\\(1\\)$", "g\\(a\\)", "\\+", "^.\\(a", "^[a-z]\\([a-z]\\)$", "^k"];
 
 fn fam_pattern(t: &str, x: &str, y: &str) -> GRule {
@@ -248,11 +253,23 @@ pub fn interpret_family(ch: &FamChoice, st: &mut Stats) -> Option<Case> {
   let bind = fam_pattern(BINDS[ch.bind as usize % BINDS.len()], pv(ch.vars.1), pv(ch.vars.1 + 1));
   let bind2 = fam_pattern(BINDS[ch.bind2 as usize % BINDS.len()], pv(ch.vars.2), pv(ch.vars.2 + 1));
   let filt = GRule::Regex(FILTS[ch.filt as usize % FILTS.len()].to_string());
+  let first_rel = std::cell::Cell::new(true);
   let rel_of = |which: u8, rule: GRule| {
+    // `field` is only legal on has / inside; call nodes of the four languages have the fields
+    // `function` and `arguments`
+    let field = if first_rel.replace(false) && which % 4 < 2 {
+      match ch.field {
+        1 | 3 => Some("function".to_string()),
+        2 | 4 => Some("arguments".to_string()),
+        _ => None,
+      }
+    } else {
+      None
+    };
     let r = Box::new(Rel {
       rule,
       stop: if ch.end { Stop::End } else { Stop::Neighbor },
-      field: None,
+      field,
     });
     match which % 4 {
       0 => GRule::Has(r),
@@ -319,6 +336,73 @@ pub fn interpret_family(ch: &FamChoice, st: &mut Stats) -> Option<Case> {
     globals,
     constraints: vec![],
   })
+}
+
+// ---------------------------------------------------------------------------------------
+// renaming: a variable that occurs once cannot be in conflict with anything, so making it
+// non-capturing (`$X` -> `$_X`) must not change which nodes a pattern matches. A difference
+// means that a binding made during a trial that was given up (a sibling tried under `$$$`, a
+// partially matched child) influenced the outcome.
+
+#[derive(Clone, Debug, Serialize, Deserialize)]
+pub struct RenCase {
+  pub lang: String,
+  pub source: String,
+  pub pattern: String,
+}
+
+const REN_PATTERNS: &[&str] = &[
+  "f($$$, $Y(1))", "f($$$, $Y(a))", "f($$$, g($X))", "f($$$, $Y(b), $$$)", "$Y($$$, g($X))", "f($Y($X), $$$)", "f($$$, g($X), h($Y))", "f($$$, $Y(g($X)))", "$Y($$$, $X(1))",
+  "f($X, $$$, $Y(a))", "k($$$, $Y(2))", "f($$$, $Y(a + 1))", "$Y($$$, $X(a), $$$)", "f($$$A, g($X))", "k($$$, h($X), $$$)", "$Y($X(a), $$$)",
+];
+
+pub fn rename_strategy() -> BoxedStrategy<(u8, Vec<Vec<(u8, u8)>>, u8)> {
+  (0u8..4, prop::collection::vec(prop::collection::vec((0u8..5, 0u8..10), 1..6), 1..4), any::<u8>()).boxed()
+}
+
+pub fn interpret_rename(ch: &(u8, Vec<Vec<(u8, u8)>>, u8), _st: &mut Stats) -> Option<RenCase> {
+  let scen = ScenChoice {
+    lang: ch.0,
+    stmts: ch.1.clone(),
+    inner: None,
+  };
+  let (lang, text) = scenario_source(&scen);
+  Some(RenCase {
+    lang: langs::name(lang),
+    source: text,
+    pattern: REN_PATTERNS[ch.2 as usize % REN_PATTERNS.len()].to_string(),
+  })
+}
+
+pub fn check_rename(case: &RenCase, st: &mut Stats) -> CheckResult {
+  let lang: SupportLang = case.lang.parse().map_err(|_| Fail::new("bad-case", "lang"))?;
+  let dropped = case.pattern.replace("$$$A", "$$$_A").replace("$X", "$_X").replace("$Y", "$_Y");
+  let (Ok(p), Ok(q)) = (Pattern::try_new(&case.pattern, lang), Pattern::try_new(&dropped, lang)) else {
+    st.discard("pattern does not parse in this language");
+    return Ok(());
+  };
+  let sg = parse(lang, &case.source);
+  st.eval();
+  let a: Vec<(usize, usize)> = sg.root().find_all(&p).map(|m| (m.range().start, m.range().end)).collect();
+  let b: Vec<(usize, usize)> = sg.root().find_all(&q).map(|m| (m.range().start, m.range().end)).collect();
+  if !b.is_empty() {
+    st.label("renaming_case_with_matches");
+    st.nontrivial(&(&case.lang, &case.source, &case.pattern));
+  }
+  if a != b {
+    let only_dropped: Vec<_> = b.iter().filter(|r| !a.contains(r)).take(3).map(|r| &case.source[r.0..r.1]).collect();
+    let only_named: Vec<_> = a.iter().filter(|r| !b.contains(r)).take(3).map(|r| &case.source[r.0..r.1]).collect();
+    fail!(
+      "C04:single-occurrence-variable-changes-the-verdict",
+      "pattern {:?} and the same pattern with non-capturing variables {:?} match different nodes: only without captures {:?}, only with captures {:?}\nsource:\n{}",
+      case.pattern,
+      dropped,
+      only_dropped,
+      only_named,
+      case.source
+    );
+  }
+  Ok(())
 }
 
 pub fn interpret(corpus: &Corpus, opts: &SrcOpts, ch: &Choice, st: &mut Stats) -> Option<Case> {
@@ -734,10 +818,14 @@ pub fn run(cfg: &RunCfg) -> i32 {
   report.assume("at most one constraint per variable and constraints are variable-free, so the hash order of constraints (C13) cannot influence the outcome here");
   let known = Known::load(&cfg.prop);
   if let Some(path) = &cfg.replay {
+    if read_replay(path).stage == "renaming" {
+      return crate::replay_main::<RenCase>(cfg, path, check_rename);
+    }
     return crate::replay_main::<Case>(cfg, path, check);
   }
   let corpus = Corpus::load();
-  crate::replay_known::<Case>(&mut report, &known, check);
+  crate::replay_known_staged::<Case>(&mut report, &known, "renaming", false, check);
+  crate::replay_known_staged::<RenCase>(&mut report, &known, "renaming", true, check_rename);
   let opts = stage_opts();
   let total = cfg.budget(12_000, 300_000);
   let o = drive(cfg, "env", total, &known, || strategy(&opts), |c, st| interpret(&corpus, &opts, c, st), check);
@@ -748,6 +836,9 @@ pub fn run(cfg: &RunCfg) -> i32 {
   let total = cfg.budget(16_000, 300_000);
   let o = drive(cfg, "families", total, &known, family_strategy, interpret_family, check);
   report.absorb("families", o);
+  let total = cfg.budget(8_000, 150_000);
+  let o = drive(cfg, "renaming", total, &known, rename_strategy, interpret_rename, check_rename);
+  report.absorb("renaming", o);
   report.floor("failed_attempt_had_bindings", 0.15, "evaluations");
   crate::fuzz::stage(cfg, &mut report, &known, 20000);
   report.finish()
